@@ -29,7 +29,7 @@ var spotlights = map[string][]string{
 	"C01": {"swap-recheck", "other-invoker", "sibling-P", "inv-as-proof", "lookalike", "long-chain", "prov-dlg", "hook-twice", "rootless-after"},
 	"C02": {"self-K", "sibling-K", "alike", "deep", "top-under-one", "long-chain", "reserved", "repeat-cmd", "rawcmd", "widen-back", "bad-utf8", "dup-proof"},
 	"C03": {"uslice", "nullopt", "alias", "twin", "sibling-Q", "hook-null", "optional-and", "starstr", "same-selector", "second-args", "below-element", "hook-completes"},
-	"C04": {"far-nbf", "sibling-W", "both-bounds", "unbounded-then-bad", "shared-option"},
+	"C04": {"far-nbf", "sibling-W", "both-bounds", "unbounded-then-bad", "shared-option", "raw-nbf"},
 	"C05": {"far-exp", "uslice", "prov-inv", "prov-dlg", "hook-twice", "long-chain", "reuse", "starstr", "repeat-cmd", "overlap-args", "churn", "second-args", "below-element", "map-order", "hook-completes"},
 	"C07": {"far-exp", "uslice", "nullopt"},
 	"C09": {"inv-as-proof", "long-chain", "deep"},
@@ -386,6 +386,15 @@ func likePattern(r *Rand, s string, match bool) string {
 			return globLit(nb)
 		}
 	}
+	if len(s) >= 2 && r.Chance(0.35) {
+		// one star between a prefix and a suffix of s that OVERLAP in s (ab*ba against aba): s
+		// starts with the one and ends with the other and is still too short to match
+		i := 1 + r.Intn(len(s)-1) // prefix s[:i], 1 <= i < len
+		j := r.Intn(i)            // suffix s[j:], j < i
+		if p := globLit(s[:i]) + "*" + globLit(s[j:]); !globModel(p, s) {
+			return p
+		}
+	}
 	switch r.Intn(3) {
 	case 0:
 		return globLit(s) + "q"
@@ -700,6 +709,15 @@ func genMeta(r *Rand) []MetaSpec {
 	if r.Chance(0.15) {
 		out = append(out, MetaSpec{Key: "cnt", V: ptr(vInt(int64(r.Range(-5, 500))))})
 	}
+	if r.Chance(0.1) {
+		// an IPLD link (a CID) as a value, alone or inside a list
+		l := Val{K: "link", X: harnessCID([]byte(randWord(r, 1, 6)))}
+		if r.Chance(0.4) {
+			out = append(out, MetaSpec{Key: "refs", V: ptr(vList(vStr("see"), l))})
+		} else {
+			out = append(out, MetaSpec{Key: "ref", V: ptr(l)})
+		}
+	}
 	if r.Chance(0.12) {
 		k := r.Bytes(32)
 		k[0] |= 1
@@ -1003,7 +1021,7 @@ func genWorld(r *Rand, cfg GenCfg) Plan {
 		conform, forced = false, "P"
 	case "alias", "twin", "hook-null", "optional-and", "same-selector":
 		conform, forced = false, "Q"
-	case "far-nbf", "both-bounds", "unbounded-then-bad":
+	case "far-nbf", "both-bounds", "unbounded-then-bad", "raw-nbf":
 		conform, forced = false, "W"
 	case "uslice", "nullopt", "starstr", "below-element":
 		if focus == "C03" {
@@ -1198,13 +1216,13 @@ func genWorld(r *Rand, cfg GenCfg) Plan {
 			}
 		}
 		if r.Chance(0.3) {
-			ck.Prov = Pick(r, []string{"inv-built", "dlg-built", "all-built", "inv-json", "dlg-json", "all-json"})
+			ck.Prov = Pick(r, []string{"inv-built", "dlg-built", "all-built", "inv-json", "dlg-json", "all-json", "dlg-stream", "dlg-stream"})
 		}
 		switch spot {
 		case "map-order":
 			ck.Prov = Pick(r, []string{"inv-built", "dlg-built", "inv-json", "dlg-json"})
 		case "prov-dlg":
-			ck.Prov = Pick(r, []string{"dlg-built", "all-built", "dlg-json", "all-json"})
+			ck.Prov = Pick(r, []string{"dlg-built", "all-built", "dlg-json", "all-json", "dlg-stream", "dlg-stream"})
 		case "prov-inv":
 			ck.Prov = Pick(r, []string{"inv-built", "all-built", "inv-json", "all-json"})
 		}
@@ -1952,7 +1970,7 @@ func (g *wgen) deviateW(c *chain, tcSec int64) {
 		m = tcSec + simEpochUnix - Pick(r, []int64{0, 1, -1, -2208988800, 946684800})
 	}
 	switch spot {
-	case "far-nbf", "both-bounds", "unbounded-then-bad":
+	case "far-nbf", "both-bounds", "unbounded-then-bad", "raw-nbf":
 		if n > 0 && k == n {
 			k = r.Intn(n)
 		}
@@ -1965,6 +1983,15 @@ func (g *wgen) deviateW(c *chain, tcSec int64) {
 	if k == n {
 		c.inv.Exp = ptr(tcSec - m)
 		g.note("W:expired@inv")
+		return
+	}
+	if spot == "raw-nbf" || r.Chance(0.04) {
+		// a deviating issuer's delegation whose not-before on the wire lies beyond 2^53 seconds
+		// (no constructor lets that through: the field is rewritten in the sealed bytes and the
+		// envelope signed again): not active for a few hundred million years, if it is read at all
+		c.dlgs[k].RawNbf = Pick(r, []int64{1<<53 + 1, 1 << 62, 1<<63 - 1, 1 << 53})
+		c.dlgs[k].Nbf, c.dlgs[k].Exp = nil, nil
+		g.note("W:raw-nbf@" + fmt.Sprint(k))
 		return
 	}
 	pos := "mid"
